@@ -293,6 +293,11 @@ impl Scenario for C17 {
             spec.pre = rng.below(pre_range(kind) + 1) as u32;
             spec.ops = gen_output_ops(rng, kind, 16);
             gen_side_ops(rng, kind, &mut spec.ops);
+            if rng.chance(1, 3) {
+                // aux[1] = k: the second twin is k whole blocks further along - another history, the SAME public
+                // read position (buffer index): the texts must still be equal
+                spec.aux = vec![0, rng.range(1, 80)];
+            }
         }
         spec
     }
@@ -330,6 +335,22 @@ impl C17 {
         let mut a = build(spec, false).map_err(E::End)?;
         let mut b = build(spec, true).map_err(E::End)?;
         let native = if kind.word_bits() == 32 { Call::U32 } else { Call::U64 };
+        if kind != Kind::Jitter {
+            if let Some(k) = spec.aux.get(1).copied().filter(|k| *k > 0) {
+                let words = k * kind.block_words() as u64;
+                let bm = b.as_mut();
+                sut(guard(|| {
+                    for _ in 0..words {
+                        if native == Call::U32 {
+                            bm.next_u32();
+                        } else {
+                            bm.next_u64();
+                        }
+                    }
+                }), "advance")?;
+                st.count("probe:same_position_other_block");
+            }
+        }
         let mut calls: Vec<Call> = (0..spec.pre).map(|_| native).collect();
         // non-output operations (timer_stats, set_rounds, test_timer, clone, snapshot/restore, ==) are applied
         // to both twins right before the texts are compared at the point where they occur
